@@ -53,7 +53,22 @@ func (lt LicenseTypes) Less(i, j int) bool {
 	if lt[i].Filename > lt[j].Filename {
 		return false
 	}
-	return lt[i].EndLine < lt[j].EndLine
+	if lt[i].EndLine != lt[j].EndLine {
+		return lt[i].EndLine < lt[j].EndLine
+	}
+	// The results of different files arrive in scheduling order and sort.Sort
+	// is not stable: break the remaining ties so that the printed order does
+	// not depend on the number of tasks.
+	if lt[i].StartLine != lt[j].StartLine {
+		return lt[i].StartLine < lt[j].StartLine
+	}
+	if lt[i].Name != lt[j].Name {
+		return lt[i].Name < lt[j].Name
+	}
+	if lt[i].MatchType != lt[j].MatchType {
+		return lt[i].MatchType < lt[j].MatchType
+	}
+	return lt[i].Variant < lt[j].Variant
 }
 
 // Classification is the license classification for a segment of a file.
